@@ -54,7 +54,7 @@ def run(module, cfg, *, workers=1, simulate=None, depth=None, timeout=900, env=N
     outdir = os.path.join(OUT, tag)
     shutil.rmtree(outdir, ignore_errors=True)
     os.makedirs(outdir, exist_ok=True)
-    cmd = ["java", "-XX:+UseParallelGC", "-Xss64m", "-cp", JAR, "tlc2.TLC", "-workers", str(workers), "-metadir",
+    cmd = ["java", "-XX:+UseParallelGC", "-Xss64m", "-Xmx10g", "-cp", JAR, "tlc2.TLC", "-workers", str(workers), "-metadir",
            os.path.join(outdir, "meta"), "-noGenerateSpecTE", "-config", os.path.join(SPECS, cfg)]
     if not deadlock:
         cmd += ["-deadlock"]
